@@ -11,14 +11,15 @@ KL_one   == { <<"K1">> }
 KL_c04   == { <<"K1">>, <<"K4", "K1">>, <<>>, <<"KX", "K4", "K1">> }
 KL_c02   == { <<"K1">>, <<"K2", "K1">>, <<"K1b">>, <<"K4">>, <<"KX", "K1", "K4">> }
 \* every list of 1..N distinct keys from the pool
-Pool == {"K1", "K2", "K3", "K4", "K5", "KX"}
+Pool == {"K1", "K2", "K3", "K4", "K5", "K6", "KX"}
 RECURSIVE Perms(_, _)
 Perms(S, k) == IF k = 0 THEN { <<>> } ELSE UNION { { <<x>> \o t : t \in Perms(S \ {x}, k - 1) } : x \in S }
-KL_c09_3 == UNION { Perms(Pool, k) : k \in 1..3 }
+\* quick: every list of up to 3 keys, plus every order of the two 4-key sets whose members all share the config id and a suite
+KL_c09_3 == UNION { Perms(Pool, k) : k \in 1..3 } \cup Perms({"K1", "K2", "K6", "K3"}, 4) \cup Perms({"K1", "K2", "K6", "K5"}, 4)
 KL_c09_4 == UNION { Perms(Pool, k) : k \in 1..4 }
 
 FaultOps == {"none", "svOdd", "sniNameType", "sniTwoNames", "innerSvOdd", "innerSniNameType", "innerTypeNo13", "dupEchBefore", "dupEchInnerBefore", "dupEchAfter", "eoeInOuter", "innerTypeInOuter", "badEchType", "emptyEnc", "sniNotPublic", "noOuterSni", "noInnerEch", "outerTypeInInner",
-             "innerNo13", "innerNoSv", "nonZeroPad", "eoeOdd", "eoeBadLen", "eoeOutOfOrder", "eoeRepeated", "eoeMissing", "eoeRefsEch",
+             "innerNo13", "innerNoSv", "nonZeroPad", "eoeOdd", "eoeBadLen", "eoeOutOfOrder", "eoeRepeated", "eoeAmplify", "eoeMissing", "eoeRefsEch",
              "eoeRefsEoe", "eoeTwice", "eoeRefsSni"}
 TamperOps == {"none", "dupEchBefore", "dupEchInnerBefore", "dupEchAfter"} \cup Tampers
 PassOpsC == {"none", "noEch", "grease", "no13", "noSv"}
